@@ -736,6 +736,20 @@ pub mod strategies {
         prop::collection::vec(step(fin_weight, run_weight), 1..max_steps)
     }
 
+    /// Several long ladders and runs: thousands of convergence points, i.e. many spilled convergence-map
+    /// blocks whose max-cut ranges overlap.
+    pub fn ladders_recipe() -> impl Strategy<Value = Vec<Step>> {
+        prop::collection::vec(
+            prop_oneof![
+                4 => (any::<u16>(), 120u16..420, body(0)).prop_map(|(a, n, b)| Step::Ladder(a, n, b)),
+                2 => (any::<u16>(), body(0)).prop_map(|(a, b)| Step::Branch(a, b)),
+                1 => (any::<u16>(), 2u8..40, body(0)).prop_map(|(a, n, b)| Step::Run(a, n, b)),
+                1 => (any::<u16>(), any::<u16>(), prop::bool::weighted(0.25)).prop_map(|(a, b, c)| Step::Merge(a, b, c)),
+            ],
+            3..9,
+        )
+    }
+
     /// A ladder long enough to overflow the 256-entry in-memory blocks of the braid and of the
     /// convergence map, plus a few ordinary steps before and after it.
     pub fn spill_recipe() -> impl Strategy<Value = Vec<Step>> {
